@@ -510,12 +510,21 @@ fn main() {
         }
     }
 
-    // ---- NativeGadget-only operations (bounded comparisons) through the FromScratch circuit
-    {
-        use scratch::{SCase, SOp};
+    // ---- operations that ZkStdLib does not re-export, through the FromScratch circuit, in three
+    // families: bounded comparisons of NativeGadget ("scratch"), decompose_fixed_limb_size of the
+    // core decomposition chip on both sides of the table width ("dec"), and the vector gadget
+    // with alignments 1..7 ("vec")
+    let faults_all = vgad::default_faults(seed);
+    for fam in ["scratch", "dec", "vec"] {
+        use scratch::{SCase, SOp, VKind};
         use vgad::{Scratch, ScratchCase};
+        let in_fam = |op: &SOp| match op {
+            SOp::DecFixed(..) => fam == "dec",
+            SOp::Vec(..) => fam == "vec",
+            _ => fam == "scratch",
+        };
         let mut scases: Vec<(String, Scratch<SCase>)> = vec![];
-        for op in scratch::sop_list() {
+        for op in scratch::sop_list().into_iter().filter(|o| in_fam(o)) {
             for ins in scratch::inputs_for(&op, seed, tier.is_thorough()) {
                 let c = SCase { op: op.clone(), ins };
                 let k = c.key();
@@ -525,24 +534,39 @@ fn main() {
             }
         }
         // k per operation: the smallest k at which an in-domain case of that operation synthesises,
-        // then the maximum over all operations (one fixed configuration, so one k fits all)
+        // then the maximum over all operations (one fixed configuration, so one k fits all).
+        // Vector operations: the layout depends on the shape and the operation, not on the payload;
+        // one search per (shape, kind) on the case with the largest parameter, plus one row of slack.
+        let kkey = |op: &SOp| match op {
+            SOp::Vec(m, a, kind) => format!("{m}/{a}/{}", format!("{kind:?}").split('(').next().unwrap()),
+            o => format!("{o:?}"),
+        };
         let mut sk = 0u32;
         let mut seen_k_ops: std::collections::HashSet<String> = Default::default();
-        for (_, c) in &scases {
-            if c.0.expect_sat() && seen_k_ops.insert(format!("{:?}", c.0.op)) {
-                match vgad::scratch_min_k(&c.0, 6, 13) {
+        for (_, c) in scases.iter().rev() {
+            if c.0.expect_sat() && seen_k_ops.insert(kkey(&c.0.op)) {
+                match vgad::scratch_min_k(&c.0, 9, 13) {
                     Some(k) => sk = sk.max(k),
                     None => cx.machinery_error(format!("from-scratch circuit of {:?} does not fit k <= 13", c.0.op)),
                 }
             }
         }
-        cx.extra("scratch_k", json!(sk));
-        let snassign: Mutex<HashMap<String, u64>> = Mutex::new(HashMap::new());
-        cx.run_cases("scratch-honest", &scases, |c| {
+        if fam == "vec" {
+            sk += 1;
+        }
+        cx.extra(&format!("{fam}_k"), json!(sk));
+        // (assignments, honest run satisfiable) of every case whose honest run is Sat or Unsat
+        let snassign: Mutex<HashMap<String, (u64, bool)>> = Mutex::new(HashMap::new());
+        cx.run_cases(&format!("{fam}-honest"), &scases, |c| {
             let mut out = CaseOut::batch();
             let rep = vgad::explore_honest(c, sk, &mut out);
             if rep.outcome == Outcome::Sat && c.0.expect_sat() {
-                snassign.lock().unwrap().insert(c.0.key(), rep.n_assign);
+                snassign.lock().unwrap().insert(c.0.key(), (rep.n_assign, true));
+            } else if matches!(rep.outcome, Outcome::Unsat(_)) && !c.0.expect_sat() && fam != "scratch" {
+                // out-of-domain case, rejected as it must be: its 1-deviation neighbourhood is
+                // explored as well (a prover who departs from the honest witness must not get an
+                // out-of-domain input accepted)
+                snassign.lock().unwrap().insert(c.0.key(), (rep.n_assign, false));
             }
             out.sample = Some(json!({"case": c.0.key(), "honest": rep.outcome.name(), "assignments": rep.n_assign}));
             out
@@ -551,14 +575,39 @@ fn main() {
         let mut sf: Vec<(String, (Scratch<SCase>, Vec<u64>))> = vec![];
         let mut sp: Vec<(String, (Scratch<SCase>, Vec<(u64, u64)>))> = vec![];
         let mut per_op: HashMap<String, usize> = HashMap::new();
+        let mut swept_ops: std::collections::BTreeSet<String> = Default::default();
         for (key, c) in &scases {
-            let Some(n) = snassign.get(key) else { continue };
-            let cnt = per_op.entry(format!("{:?}", c.0.op)).or_default();
-            // quick: two input tuples per operation; thorough: all
-            if !tier.is_thorough() && *cnt >= 2 {
+            let Some((n, honest_sat)) = snassign.get(key) else { continue };
+            // the quick tier sweeps a fixed sub-family of the vector operations (two shapes, one
+            // with a non-power-of-two alignment; trims below, at and above the alignment)
+            if fam == "vec" && !tier.is_thorough() {
+                let SOp::Vec(m, a, kind) = &c.0.op else { unreachable!() };
+                let shape_ok = (*m, *a) == (6, 3) || (*m, *a) == (8, 4);
+                let kind_ok = match kind {
+                    VKind::Limits | VKind::Pad | VKind::Resize => true,
+                    VKind::Trim(t) => [1, *a - 1, *a + 1].contains(t),
+                    VKind::Trim2(t1, t2) => (*t1, *t2) == (1, *a),
+                    VKind::Eq(sp) | VKind::EqFixed(sp) => *sp == 2 || *sp == *a + 1,
+                    VKind::AssertEq(sp) | VKind::AssertNeqFixed(sp) => *sp == 2,
+                };
+                if !shape_ok || !kind_ok {
+                    continue;
+                }
+            }
+            let cnt = per_op.entry(format!("{:?}/{}", c.0.op, honest_sat)).or_default();
+            // quick: two input tuples per operation (and per domain side); thorough: all
+            // (vector family, thorough: four per operation and side)
+            let lim = match (fam, tier.is_thorough()) {
+                ("vec", false) => 1,
+                ("vec", true) => 4,
+                (_, false) => 2,
+                (_, true) => usize::MAX,
+            };
+            if *cnt >= lim {
                 continue;
             }
             *cnt += 1;
+            swept_ops.insert(c.0.op());
             let idxs: Vec<u64> = (0..*n).collect();
             for (ci, chunk) in idxs.chunks(24).enumerate() {
                 sf.push((format!("{key}#{ci}"), (c.clone(), chunk.to_vec())));
@@ -575,17 +624,22 @@ fn main() {
                 }
             }
         }
-        cx.run_cases("scratch-faults", &sf, |(c, idxs)| {
+        cx.note(format!("{fam}: {} cases; 1-deviation sweep over {} (case, chunk) units of operations {:?}", scases.len(), sf.len(), swept_ops));
+        if fam != "scratch" {
+            cx.next_group_share(tier.pick(14.0, 600.0));
+        }
+        cx.run_cases(&format!("{fam}-faults"), &sf, |(c, idxs)| {
             let mut out = CaseOut::batch();
-            vgad::explore_faults(c, sk, idxs, if tier.is_thorough() { &faults[..] } else { &faults_a[..] }, &mut out);
+            // the decomposition family always uses the whole fault alphabet (its circuits are a few
+            // dozen cells; +2 and +2^8 are the overflow units of its one-bit and eight-bit top limbs)
+            vgad::explore_faults(c, sk, idxs, if tier.is_thorough() { &faults[..] } else if fam == "dec" { &faults_all[..] } else { &faults_a[..] }, &mut out);
             out
         });
-        cx.run_cases("scratch-pairs", &sp, |(c, pairs)| {
+        cx.run_cases(&format!("{fam}-pairs"), &sp, |(c, pairs)| {
             let mut out = CaseOut::batch();
             vgad::explore_pairs(c, sk, pairs, &f2, &mut out);
             out
         });
-        let _ = SOp::Bounded(1);
     }
     // ---- region-local alternative-witness search (vgad::laws) on one input tuple per operation:
     // every set of <= 3 lookup rows of a region (range checks, byte tables) answered with a
